@@ -59,10 +59,11 @@ func WeightedSampling(sampleNum int, totalNum int, getWeight func(int) float64) 
 		index int
 	}
 
-	h := make(sampleHeap, sampleNum)
+	h := make(sampleHeap, 0, sampleNum) // 初始为空堆, 否则预填充的零值项会混入结果
 	for i := 0; i < totalNum; i++ {
 		ui := rand.Float64()
-		ki := math.Pow(ui, 1/getWeight(i))
+		// 与 ui^(1/wi) 同序, 但在对数域计算, 权重极小或极大时不会下溢为0或舍入为1
+		ki := math.Log(getWeight(i)) - math.Log(-math.Log(ui))
 
 		if h.Len() < sampleNum {
 			heap.Push(&h, sampleHeapItem{ki: ki, index: i})
